@@ -52,8 +52,8 @@ Proof. unfold result_ids. rewrite in_flat_map. split.
   - intros (r & t & H). exists (Result i r t). split; [assumption|left; reflexivity]. Qed.
 
 Section Tr.
-Variable rto : Z.
-Variable wr : N -> nat -> bool.
+  Variable rto : Z.
+  Variable wr : N -> nat -> bool.
 
 (* what the schedule clause of [holds] demands of one action, relative to the trace so far *)
 Definition acond (l : list action) (a : action) : Prop :=
@@ -186,8 +186,8 @@ Proof.
 Qed.
 
 Section Inv.
-Variable rto : Z.
-Variable wr : N -> nat -> bool.
+  Variable rto : Z.
+  Variable wr : N -> nat -> bool.
 
 Definition tinv (pre : list action) (st : list (N * bool)) (dn : list N) (x : tr) : Prop :=
   tinvS rto (fun i => start_of i pre) x /\ In (t_id x) (map fst st) /\ ~ In (t_id x) dn.
